@@ -17,7 +17,7 @@ RULE = (
     "declaration orders of IsUnique and DistinctCount x the three error modes, the comparison 'k1 <op> n' rotating "
     "through all 6 operators x n in 0..4 with n written plainly or as a sum, product, difference or in brackets; "
     "the same sweep over 8 row symbols whose key values may be empty (both key fields allowed to be empty); every "
-    "sequence of 0-4 / 0-5 rows over k1 in {a,b} x k2 in {x,y} x v accepted or rejected under two IsUnique checks (k1; "
+    "sequence of 0-4 / 0-5 rows over k1 in {a,b} x k2 in {a,y} x v accepted or rejected under two IsUnique checks (k1; "
     "k2) in both orders, every third time with a DistinctCount between them. Hypothesis: CIDs with 2-3 Text/Choice/Integer fields, an IsUnique check "
     "over 1-3 key fields and 0-2 DistinctCount checks in either order, tables of up to 10 rows over pools of 2-3 "
     "values per key field, rows rejected for other reasons interleaved, three modes. Oracle: dictionary model "
@@ -236,7 +236,8 @@ def _join_collisions(ctx):
 
 
 # -- several uniqueness checks in one CID ------------------------------------------------------------------------
-_TWO_KEY_SYMBOLS = [[k1, k2, v] for k1 in "ab" for k2 in "xy" for v in ("x", "z")]
+# the two key columns share a value ("a"): a key of one check must not count as a key of the other
+_TWO_KEY_SYMBOLS = [[k1, k2, v] for k1 in "ab" for k2 in "ay" for v in ("x", "z")]
 
 
 def _several_unique_spec(order, with_count):
